@@ -10,6 +10,7 @@ import (
 	"fmt"
 	"math"
 	"os"
+	"runtime"
 	"sort"
 	"strings"
 	"sync"
@@ -1497,6 +1498,136 @@ func overlappingCollects(w *vgen.Writer, r *vgen.Rand, desc string, delta, creat
 	}
 }
 
+// ---- concurrent Adds on the SAME attribute set ----
+
+// concurrentSameSet: G goroutines add known values to one attribute set (and a second, shared one) of a
+// synchronous counter / up-down counter, int64 or float64, while the delta reader collects now and then;
+// after all of them have returned both readers collect once more.  Clause, judged here: the cumulative
+// value is the exact sum of everything added, and so is the sum of all delta values.
+func concurrentSameSet(w *vgen.Writer, r *vgen.Rand, desc string) {
+	deltaR := sdk.NewManualReader(sdk.WithTemporalitySelector(allDelta))
+	cumR := sdk.NewManualReader()
+	mp := sdk.NewMeterProvider(sdk.WithReader(deltaR), sdk.WithReader(cumR))
+	ctx := context.Background()
+	defer mp.Shutdown(ctx)
+	meter := mp.Meter("verif/c08/same-set")
+	float, updown := r.Bool(), r.Bool()
+	var add func(v int64, opt metric.AddOption)
+	var err error
+	switch {
+	case float && updown:
+		var c metric.Float64UpDownCounter
+		c, err = meter.Float64UpDownCounter("s")
+		add = func(v int64, opt metric.AddOption) { c.Add(ctx, float64(v)/4, opt) }
+	case float:
+		var c metric.Float64Counter
+		c, err = meter.Float64Counter("s")
+		add = func(v int64, opt metric.AddOption) { c.Add(ctx, float64(v)/4, opt) }
+	case updown:
+		var c metric.Int64UpDownCounter
+		c, err = meter.Int64UpDownCounter("s")
+		add = func(v int64, opt metric.AddOption) { c.Add(ctx, v, opt) }
+	default:
+		var c metric.Int64Counter
+		c, err = meter.Int64Counter("s")
+		add = func(v int64, opt metric.AddOption) { c.Add(ctx, v, opt) }
+	}
+	if err != nil {
+		w.Violation("setup failed: "+err.Error(), desc)
+		return
+	}
+	nG, perG := r.Range(3, 8), r.Range(3000, 12000)
+	opts := []metric.AddOption{metric.WithAttributes(attribute.String("k", "shared")), metric.WithAttributes()}
+	want := make([]int64, 2) // per set, in quarter units for float instruments
+	plans := make([][]int64, nG)
+	for g := range plans {
+		gr := r.Fork()
+		plans[g] = make([]int64, perG)
+		for j := range plans[g] {
+			v := int64(gr.Range(1, 5))
+			if updown && gr.Chance(1, 3) {
+				v = -v
+			}
+			plans[g][j] = v
+			want[j%8/7] += v // seven of eight adds go to the shared set "k=shared", one to the empty set
+		}
+	}
+	read := func(rm *metricdata.ResourceMetrics, into []int64) {
+		for _, sm := range rm.ScopeMetrics {
+			for _, m := range sm.Metrics {
+				put := func(set attribute.Set, v int64) {
+					i := 1
+					if set.Len() == 1 {
+						i = 0
+					}
+					into[i] += v
+				}
+				switch d := m.Data.(type) {
+				case metricdata.Sum[int64]:
+					for _, p := range d.DataPoints {
+						put(p.Attributes, p.Value)
+					}
+				case metricdata.Sum[float64]:
+					for _, p := range d.DataPoints {
+						put(p.Attributes, int64(p.Value*4))
+					}
+				}
+			}
+		}
+	}
+	deltas := make([]int64, 2)
+	var wg sync.WaitGroup
+	for g := range plans {
+		wg.Add(1)
+		go func(g int) {
+			defer wg.Done()
+			for j, v := range plans[g] {
+				add(v, opts[j%8/7])
+			}
+		}(g)
+	}
+	stop := make(chan struct{})
+	collected := make(chan struct{})
+	go func() { // the delta reader collects while the adders run
+		defer close(collected)
+		for {
+			select {
+			case <-stop:
+				return
+			default:
+			}
+			var rm metricdata.ResourceMetrics
+			_ = deltaR.Collect(ctx, &rm)
+			read(&rm, deltas)
+			runtime.Gosched()
+		}
+	}()
+	done := make(chan struct{})
+	go func() { wg.Wait(); close(done) }()
+	select {
+	case <-done:
+	case <-time.After(120 * time.Second):
+		w.Violation("concurrent Adds did not return within 120 s", desc)
+		close(stop)
+		return
+	}
+	close(stop)
+	<-collected
+	var rmD, rmC metricdata.ResourceMetrics
+	_ = deltaR.Collect(ctx, &rmD)
+	read(&rmD, deltas)
+	cum := make([]int64, 2)
+	_ = cumR.Collect(ctx, &rmC)
+	read(&rmC, cum)
+	w.Tally("concurrent Adds on one attribute set")
+	for i, name := range []string{"k=shared", "the empty set"} {
+		if cum[i] != want[i] || deltas[i] != want[i] {
+			w.Violation(fmt.Sprintf("%d goroutines x %d Adds on the same attribute sets (float=%v, updown=%v), %s: added %d in total, cumulative value %d, sum of the deltas %d",
+				nG, perG, float, updown, name, want[i], cum[i], deltas[i]), desc)
+		}
+	}
+}
+
 // ---- many distinct attribute sets over an instrument's lifetime, no cardinality limit configured ----
 
 // largeCardinality: cycles of fresh attribute sets (value 1 each, some sets recorded again) on one
@@ -1657,6 +1788,17 @@ func main() {
 				}
 			}()
 			overlappingCollects(w, r.Fork(), desc, i%2 == 0, (i/2)%2 == 0 != (o.Seed%2 == 0))
+		}()
+	}
+	for i := 0; i < o.Count(3, 20); i++ {
+		desc := fmt.Sprintf("seed=%d concurrent-same-set=%d", o.Seed, i)
+		func() {
+			defer func() {
+				if e := recover(); e != nil {
+					w.Violation(fmt.Sprintf("panic: %v", e), desc)
+				}
+			}()
+			concurrentSameSet(w, r.Fork(), desc)
 		}()
 	}
 	nBig := o.Count(1, 4)
